@@ -5,7 +5,6 @@ package argmapper
 
 import (
 	"fmt"
-	"go/token"
 	"reflect"
 	"strings"
 
@@ -103,6 +102,7 @@ func NewValueSet(vs []Value) (*ValueSet, error) {
 		Type:      structMarkerType,
 		Anonymous: true,
 	})
+	names := map[string]struct{}{}
 	for i, v := range vs {
 		if isStruct(v.Type) {
 			return nil, fmt.Errorf("can't have argmapper.Struct values with custom ValueSet building")
@@ -111,21 +111,17 @@ func NewValueSet(vs []Value) (*ValueSet, error) {
 		// TODO(mitchellh): error on duplicate names, types
 
 		// The value is carried by a field of the struct and the tag of that
-		// field. A name or subtype that can't be read back from there would
-		// give a set that doesn't contain the value that was asked for.
-		if v.Name != "" {
-			field := strings.ToUpper(v.Name)
-			if !token.IsIdentifier(field) || !token.IsExported(field) ||
-				strings.ToLower(field) != strings.ToLower(v.Name) {
-				return nil, fmt.Errorf("value name %q can't be used in a ValueSet", v.Name)
-			}
+		// field. The tag separates its parts by commas, so a name or subtype
+		// containing one can't be read back from there.
+		if strings.Contains(v.Name, ",") {
+			return nil, fmt.Errorf("value name %q can't be used in a ValueSet", v.Name)
 		}
 		if strings.Contains(v.Subtype, ",") {
 			return nil, fmt.Errorf("value subtype %q can't be used in a ValueSet", v.Subtype)
 		}
 
 		// Build our tag.
-		tags := []string{""}
+		tags := []string{v.Name}
 		if v.Name == "" {
 			tags = append(tags, "typeOnly")
 		}
@@ -136,8 +132,16 @@ func NewValueSet(vs []Value) (*ValueSet, error) {
 
 		switch v.Kind() {
 		case ValueNamed:
+			// The name is in the tag. It doesn't have to be usable as the
+			// name of a field, so the field is numbered like a typed one.
+			name := strings.ToLower(v.Name)
+			if _, ok := names[name]; ok {
+				return nil, fmt.Errorf("value name %q is used more than once", v.Name)
+			}
+			names[name] = struct{}{}
+
 			sf = append(sf, reflect.StructField{
-				Name: strings.ToUpper(v.Name),
+				Name: fmt.Sprintf("V__Name_%d", i),
 				Type: v.Type,
 				Tag:  tag,
 			})
